@@ -127,6 +127,17 @@ func TraverseAST(node ast.Node, env *Pass1) ast.Node {
 	case *ast.ExportSymStmt: // GLOBAL ディレクティブ
 		// フィールド名を Symbols に修正
 		for _, factor := range n.Symbols {
+			// 同じ名前を二度 GLOBAL 宣言してもシンボルは一つだけ登録する
+			alreadyExists := false
+			for _, existing := range env.GlobalSymbolList {
+				if existing == factor.Value {
+					alreadyExists = true
+					break
+				}
+			}
+			if alreadyExists {
+				continue
+			}
 			env.GlobalSymbolList = append(env.GlobalSymbolList, factor.Value)
 			log.Printf("debug: Added global symbol '%s'", factor.Value)
 		}
